@@ -601,6 +601,12 @@ func (e *SpecEnv) evalCall(x *ast.CallExpr) Term {
 			ao = e.old.alloc
 		}
 		return boolTerm(fmt.Sprintf("(and (<= %s %s) (< %s %s))", ao, v.S, v.S, e.st.alloc))
+	case "calledcount":
+		// number of times a context.CancelFunc value was called in this activation
+		f := e.eval(arg(0))
+		h := vc.heapGet(e.st, "G$called$cancel", "(Array Int Int)", nil)
+		h0 := vc.heapGet(vc.entry, "G$called$cancel", "(Array Int Int)", nil)
+		return intTerm("(- " + sel(h.S, f.S) + " " + sel(h0.S, f.S) + ")")
 	case "callerfresh":
 		// the object was allocated by the function under verification in this activation
 		v := e.eval(arg(0))
